@@ -202,7 +202,9 @@ CLAIMS["C11"] = _b(
     "that the concrete budget of the model's step suffices are not theorems; that the id of a new connection is not in use is a theorem "
     "about the allocator of connection ids for ALL histories of acquiring and dropping ids, together with its two debug_assert!s "
     "(connection_ids_are_never_handed_out_twice, connection_id_bookkeeping; model of conn_id.rs tied to the real allocator through the "
-    "broker's verif-hooks feature). These, and 'a well-behaved connection is still served correctly afterwards', are covered by the 'abuse' profile of the "
+    "broker's verif-hooks feature), and for broker and allocator composed the duplicate check of NewConnection passes after every "
+    "history (new_connection_id_is_never_a_duplicate: ids come from acquire, an id is released only while the broker has no connection "
+    "under it, no step of the broker inserts a connection other than NewConnection). These, and 'a well-behaved connection is still served correctly afterwards', are covered by the 'abuse' profile of the "
     "correspondence runs (panics caught around every poll, the model names the site, liveness probe of every surviving connection).",
     "DESIGN.md section 6 C11 and 10.2")
 CLAIMS["C12"] = _b(
